@@ -142,3 +142,64 @@ def _clamp(repo):
             f"def recursionLimitClampedToMax : Bool := {'true' if clamped else 'false'}\n"
             f"def recursionLimitDefaultIsMax : Bool := {'true' if default_is_max else 'false'}")
     return {"expr": expr, "clamped": clamped, "defaults": defaults}, lean
+
+
+_EXIT = re.compile(r"\breturn\b|\bok!\(|\bbreak\b|\bcontinue\b|\?\s*;")
+
+
+def _brace_depth(body, pos):
+    d = 0
+    for ch in body[:pos]:
+        if ch == "{":
+            d += 1
+        elif ch == "}":
+            d -= 1
+    return d
+
+
+@item("C11_INCLUDE_EXITS")
+def _include_exits(repo):
+    """exit paths of `perform_include` relative to the depth charge: every `return`/`ok!`/`?`/
+    `break`/`continue` before the charge is taken, while it is held, and after it was released;
+    and the block nesting of the charge and of its release (a release moved out of the candidate
+    loop, or an exit while the charge is held, changes this table)"""
+    src = _strip(read(repo, VM))
+    body = None
+    for name, b in _functions(src):
+        if name == "perform_include":
+            body = b
+    if body is None:
+        raise KeyError("fn perform_include")
+    incr = [m for m in re.finditer(r"\.incr_depth\(", body)]
+    decr = [m for m in re.finditer(r"\.decr_depth\(", body)]
+    if len(incr) != 1 or len(decr) != 1:
+        raise KeyError(f"perform_include: {len(incr)} incr_depth / {len(decr)} decr_depth calls (expected 1/1)")
+    i0, i1 = incr[0].start(), _balanced(body, incr[0].end() - 1)
+    d0, d1 = decr[0].start(), _balanced(body, decr[0].end() - 1)
+    rows = []
+    for m in _EXIT.finditer(body):
+        p = m.start()
+        tok = "?" if m.group(0).startswith("?") else m.group(0).rstrip("(")
+        if p < i0 and body[p:i0].strip().startswith("ok!(") and "ok!(" == m.group(0) and not _EXIT.search(body, m.end(), i0):
+            region = "charge"      # the `ok!(` wrapping the incr_depth call itself
+        elif p < i0:
+            region = "before"
+        elif p < d0:
+            region = "held"
+        else:
+            region = "released"
+        rows.append((region, tok))
+    scope = (_brace_depth(body, i0), _brace_depth(body, d0))
+    args = (_norm(body[incr[0].end():i1 - 1]), _norm(body[decr[0].end():d1 - 1]))
+    lean = ("def includeExits : List (String × String) := ["
+            + ", ".join(f"({lean_str(a)}, {lean_str(b)})" for a, b in rows) + "]\n"
+            + f"def includeChargeScope : Nat × Nat := ({scope[0]}, {scope[1]})\n"
+            + f"def includeChargeArgs : String × String := ({lean_str(args[0])}, {lean_str(args[1])})")
+    return {"exits": rows, "scope": scope, "args": args}, lean
+
+
+@item("C11_DECR_DEPTH")
+def _decr(repo):
+    src = _strip(read(repo, CTX))
+    body = _norm(fn_body(src, r"pub fn decr_depth\(&mut self, delta: usize\)\s*\{"))
+    return body, f"def decrDepthBody : String := {lean_str(body)}"
